@@ -16,6 +16,7 @@
 package gomatrixserverlib
 
 import (
+	"encoding/json"
 	"fmt"
 	"strings"
 	"unicode/utf8"
@@ -104,6 +105,24 @@ func checkIDLength(id, kind string) (err error) {
 func checkValidRoomID(id string) error {
 	if _, err := spec.NewRoomID(id); err != nil {
 		return fmt.Errorf("gomatrixserverlib: invalid room ID %q: %w", id, err)
+	}
+	return nil
+}
+
+// checkEventSignatures checks that the "signatures" member of an event, if there is one,
+// has the shape that signing relies on: signing name -> key ID -> signature.
+func checkEventSignatures(eventJSON []byte) error {
+	var members map[string]json.RawMessage
+	if err := json.Unmarshal(eventJSON, &members); err != nil {
+		return err
+	}
+	raw, ok := members["signatures"]
+	if !ok {
+		return nil
+	}
+	var signatures map[string]map[KeyID]json.RawMessage
+	if err := json.Unmarshal(raw, &signatures); err != nil {
+		return fmt.Errorf("gomatrixserverlib: invalid signatures: %w", err)
 	}
 	return nil
 }
